@@ -46,8 +46,9 @@ PROPS = {
                 "file-size flags; entity-id widths 1/2/4/8; plus a 40-option Metadata and a 30-request NAK) three cases: every "
                 "single-bit flip at every bit >= 32, every pair of flips within a 40-bit window, burst patterns of <= 16 bits "
                 "(exhaustive up to a length that depends on the frame size, seeded sample above it; long frames sampled in the quick "
-                "tier), the same errors with other octets following the frame in the same arrival, and the same PDU without the "
-                "CRC (frame delimitation only); non-trivial = at least 2 ops; distinct = distinct op-list text",
+                "tier), the same errors with other octets following the frame in the same arrival, the same PDU without the "
+                "CRC (frame delimitation only), and errors outside the classes that break the CRC (scattered flips, replaced or "
+                "exchanged octets, long bursts: the decoder must reject them because the check fails); non-trivial = at least 2 ops; distinct = distinct op-list text",
         "explanation": "Theorems over Model/Crc.v (the octet-wise CRC-16 routine of pdu.rs, over N with the u16 masks written out) for "
                        "messages and error patterns of every length; the finite parts (2^16 register states, 2^16 sixteen-bit words, "
                        "one orbit of 32766 shifts) are vm_compute sweeps lifted by forallb_forall with the bound in the statement. "
